@@ -1,6 +1,7 @@
 package regular
 
 //vsym:pkg github.com/theparanoids/ysshra/gensign/regular
+//vsym:include regular/ctor.go || regular/ctor_bb.go
 //vsym:include C03/h03.go
 //vsym:entry H04_real_faults
 //vsym:replay same-harness
@@ -25,8 +26,7 @@ func H04_real_faults() {
 	}
 	validity := vNondetU64("validity")
 	vAssume(vAnd(validity >= 1, validity <= 315360000))
-	h := h03Real{&Handler{certValiditySec: validity, agent: agent, conf: &conf{CertValiditySec: validity,
-		KeyIdentifiers: map[x509.PublicKeyAlgorithm]string{0: "slot"}}}}
+	h := h03Real{rgNewHandler(validity, agent, map[x509.PublicKeyAlgorithm]string{0: "slot"}, "")}
 	param := &csr.ReqParam{LogName: "user", TransID: "t", ClientIP: "1.2.3.4", ReqUser: "u", ReqHost: "h", Attrs: &message.Attributes{}}
 	signer := &m03Signer{fail: vChoose(2, "ca-fails") == 1}
 	nk := 1 + vChoose(3, "certificates-returned")
